@@ -676,6 +676,14 @@ class Engine:
                                     for i, x in enumerate(j['tuple'])})
             if 'static' in j:
                 return OpaqueV('static:' + j['static'], j['static'])
+            if 'adt' in j and 'variant' in j:
+                v = EnumV(j['adt'], {j['variant']}, {j['variant']: StructV(j.get('variant_name', 'v'), {})})
+                inner = strip_ref(ty)
+                if inner is not None:
+                    root = ('H', 'c%d' % next(_uid))
+                    st.store[root] = v
+                    return RefV((root, ()))
+                return v
         return OpaqueV(ty, next(_uid))
 
     # ================= operands / rvalues ==============================
